@@ -22,7 +22,7 @@ DOCS = {
     "sets": "===DOC===\nSTATUS::x\nRISKS::[r1,r2]\nDECISIONS::d\nTESTS::t\nCI::c\nDEPS::[d1]\nOTHER::o\n===END===\n",
     "holo_schema": '===SCH===\nMETA:\n  TYPE::PROTOCOL_DEFINITION\n  VERSION::"1.0"\nPOLICY:\n  VERSION::"1.0"\n  UNKNOWN_FIELDS::WARN\n  TARGETS::[§INDEXER]\nFIELDS:\n  NAME::["x"∧REQ→§INDEXER]\n  KIND::["A"∧ENUM[A,B]→§INDEXER]\n===END===\n',
     "bad_schema": '===BAD===\nMETA:\n  TYPE::PROTOCOL_DEFINITION\n  VERSION::"1.0"\nPOLICY:\n  VERSION::"1.0"\n  UNKNOWN_FIELDS::REJECT\nFIELDS:\n  STATUS::["ACTIVE"∧REQ∧ENUM[DRAFT,ACTIVE,DEPRECATED,DONE,DORMANT]]\n  N::[5∧OPT∧TYPE[NUMBER]∧RANGE[1,10]]\n  D::["aa"∧OPT∧REGEX["^a+$"]]\n  C::["X"∧OPT∧CONST[X]]\n  T::["s"∧OPT∧TYPE[STRING]∧MAX_LENGTH[2]]\n  MISSING::["m"∧REQ]\n===END===\n',
-    "bad_instance": '===INST===\nBAD:\n  STATUS::D\n  N::77\n  D::bbb\n  C::Y\n  T::toolong\n  ZZ::1\n  AA::2\n  MM::3\n===END===\n',
+    "bad_instance": '===INST===\nBAD:\n  STATUS::D\n  N::77\n  D::bbb\n  C::Y\n  T::toolong\n  ZZ::1\n  AA::2\n  MM::3\n  Zz::4\n  zz::5\n  aa::6\n  Aa::7\n===END===\n',
     "holo_instance": '===INST===\nSCH:\n  NAME::["y"∧REQ]\n  KIND::A\n  EXTRA2::1\n  EXTRA1::2\n===END===\n',
 }
 
